@@ -1,6 +1,10 @@
 (* C10 — a successful build is a well-formed simple graph; build errors are real. Statements only. *)
 From Coq Require Import List NArith Bool.
 Require Import P.Spec.Events P.Spec.Graph P.Model.Base P.Model.Walk P.Model.Builder P.Proofs.BuilderWf P.Proofs.C12_Final.
+Import ListNotations.
+Require Import P.Generated.Trees P.Spec.Values P.Model.Reader P.Spec.Known
+  P.Proofs.C09_Inverse P.Proofs.DenoteSym P.Spec.Denote P.Spec.BuildErrors P.Proofs.BuildErrorsInv P.Proofs.BuildErrors.
+Strategy opaque [tree_symbol tree_organic tree_configuration tree_charge tree_bond tree_rnum tree_hcount tree_isotope tree_map].
 
 (* every event history on which the builder succeeds: no self bond, no pair bonded twice, every bond on both ends with
    mutually reversed kinds, all targets in range *)
@@ -14,6 +18,45 @@ Proof. intros h g Hc Hb Hs. apply wf_accepted; [exact (build_ok_is_simple h g Hc
 Theorem C10_one_atom_per_atom_event : forall h g, bld h = BOk g -> length g = length (filter is_new h).
 Proof. exact build_ok_length. Qed.
 
+(* ---- second half: build errors are exactly the classified defects (declarative vocabulary: Spec/BuildErrors.v:
+   closure, unmatched, bad_closure (self / tree bond / earlier successful closure / irreconcilable kinds), first_bad_closure) ---- *)
+(* for every accepted string (atom kinds outside the known panic class of C06): the builder reports atoms (x, y) exactly
+   when the first bad closure is completed on x and was opened on y; it reports a ring token only if no closure is bad
+   and that token is unmatched, and it reports some token exactly when no closure is bad and some token is unmatched;
+   it succeeds exactly when no closure is bad and no token is unmatched; it does not panic *)
+Theorem C10_build_errors_are_real : forall s h, rd s = (VOk, h) ->
+  (forall b k, In (EExtend b k) h -> known_invert_panic k = false) ->
+  exists k0 bd, syntax_of h = Some (k0, bd) /\ h = ERoot k0 :: flat0 bd /\
+    let rg := ring_tokens bd in let tree := tree_bonds bd in
+    (forall x y, bld h = BErr (Builder.BJoin x y) <-> exists j, first_bad_closure rg tree j x y) /\
+    (forall rid, bld h = BErr (BRnum rid) -> no_bad_closure rg tree /\ unmatched rg rid) /\
+    ((exists rid, bld h = BErr (BRnum rid)) <-> no_bad_closure rg tree /\ exists i, unmatched rg i) /\
+    ((exists g, bld h = BOk g) <-> no_bad_closure rg tree /\ forall i, ~ unmatched rg i) /\
+    bld h <> BPanic.
+Proof. exact reading_build_errors_are_real. Qed.
+
+(* the same three-way reading of the denotation itself *)
+Theorem C10_denotation_join : forall k0 bd a a0,
+  denote k0 bd = DJoin a a0 <-> exists j, first_bad_closure (ring_tokens bd) (tree_bonds bd) j a a0.
+Proof. exact denote_join_iff. Qed.
+Theorem C10_denotation_unmatched : forall k0 bd occs,
+  denote k0 bd = DUnmatched occs <->
+  no_bad_closure (ring_tokens bd) (tree_bonds bd) /\ occs <> [] /\ decreasing occs /\ forall i, In i occs <-> unmatched (ring_tokens bd) i.
+Proof. exact denote_unmatched_iff. Qed.
+Theorem C10_denotation_ok : forall k0 bd,
+  (exists g, denote k0 bd = DOk g) <-> no_bad_closure (ring_tokens bd) (tree_bonds bd) /\ forall i, ~ unmatched (ring_tokens bd) i.
+Proof. exact denote_ok_iff. Qed.
+(* every closure either makes its bond or is bad, never both *)
+Theorem C10_closure_decided : forall rg tree, (forall i t, nth_error rg i = Some t -> fst (fst (fst t)) = i) ->
+  forall j i a0 b0 a b, closure rg i a0 b0 j a b ->
+  (makes_bond rg tree j \/ bad_closure rg tree j) /\ ~ (makes_bond rg tree j /\ bad_closure rg tree j).
+Proof. exact closure_decided. Qed.
+
 Print Assumptions C10_successful_build_is_simple_graph.
 Print Assumptions C10_built_graph_is_accepted_by_traversal.
 Print Assumptions C10_one_atom_per_atom_event.
+Print Assumptions C10_build_errors_are_real.
+Print Assumptions C10_denotation_join.
+Print Assumptions C10_denotation_unmatched.
+Print Assumptions C10_denotation_ok.
+Print Assumptions C10_closure_decided.
